@@ -5,6 +5,8 @@ import Mathlib.Tactic.Ring
 import Mathlib.Tactic.Linarith
 import Mathlib.Data.List.FinRange
 import Mathlib.Data.Fintype.EquivFin
+import Mathlib.LinearAlgebra.Matrix.Rank
+import Mathlib.Data.Fintype.Fin
 
 open Finset BigOperators Matrix
 
@@ -197,6 +199,152 @@ theorem svdKernelRows_spec {m : ℕ} (tol : K) (s : List K) (A : Matrix (Fin m) 
       (List.nodup_finRange n).sublist (List.drop_sublist _ _)
     exact hnd.imp (fun {i j} hij => by rw [hdot, Matrix.one_apply_ne hij])
   · rw [List.length_map, List.length_drop, List.length_finRange]; omega
+
+/-! ### rank of the SVD normal form and the dimension of the returned kernel basis -/
+
+section rank
+variable [IsStrictOrderedRing K]
+
+theorem sigmaMat_transpose_mul_self (m : ℕ) (s : List K) :
+    (sigmaMat (n := n) m s)ᵀ * sigmaMat m s
+      = Matrix.diagonal (fun i : Fin n => if i.val < m then (s.getD i.val 0) ^ 2 else 0) := by
+  ext i j
+  rw [Matrix.mul_apply, Matrix.diagonal_apply]
+  simp only [Matrix.transpose_apply, sigmaMat]
+  by_cases hij : i = j
+  · subst hij
+    rw [if_pos rfl]
+    by_cases hm : i.val < m
+    · rw [if_pos hm, Finset.sum_eq_single (⟨i.val, hm⟩ : Fin m)]
+      · simp; ring
+      · intro a _ ha
+        have : a.val ≠ i.val := fun h => ha (Fin.ext h)
+        simp [this]
+      · simp
+    · rw [if_neg hm]
+      apply Finset.sum_eq_zero
+      intro a _
+      have : a.val ≠ i.val := fun h => hm (h ▸ a.2)
+      simp [this]
+  · rw [if_neg hij]
+    apply Finset.sum_eq_zero
+    intro a _
+    by_cases h1 : a.val = i.val
+    · have : a.val ≠ j.val := fun h2 => hij (Fin.ext (h1.symm.trans h2))
+      simp [this]
+    · simp [h1]
+
+theorem card_getD_ne_zero (s : List K) : ∀ n, s.length ≤ n →
+    (Finset.univ.filter fun i : Fin n => s.getD i.val 0 ≠ 0).card = (s.filter (· ≠ 0)).length := by
+  induction s with
+  | nil => intro n _; simp
+  | cons x t ih =>
+    intro n hn
+    obtain ⟨n', rfl⟩ : ∃ n', n = n' + 1 := ⟨n - 1, by simp at hn; omega⟩
+    rw [Fin.card_filter_univ_succ]
+    have hsucc : (Finset.univ.filter fun i : Fin n' => (x :: t).getD (i.succ : Fin (n' + 1)).val 0 ≠ 0)
+        = Finset.univ.filter fun i : Fin n' => t.getD i.val 0 ≠ 0 := by
+      ext i; simp
+    rw [hsucc, ih n' (by simp at hn; omega)]
+    by_cases hx : x = 0
+    · simp [hx]
+    · simp [hx]
+
+theorem rank_sigmaMat (m : ℕ) (s : List K) (h1 : s.length ≤ m) (h2 : s.length ≤ n) :
+    (sigmaMat (n := n) m s).rank = (s.filter (· ≠ 0)).length := by
+  rw [← Matrix.rank_transpose_mul_self, sigmaMat_transpose_mul_self, Matrix.rank_diagonal,
+    Fintype.card_subtype, ← card_getD_ne_zero s n h2]
+  congr 1
+  ext i
+  simp only [Finset.mem_filter, Finset.mem_univ, true_and]
+  constructor
+  · intro h
+    intro h0
+    simp at h
+    rw [List.getD_eq_getElem?_getD] at h0
+    exact h.2 h0
+  · intro h
+    have hlt : i.val < s.length := by
+      by_contra hc
+      exact h (by rw [List.getD_eq_getElem?_getD, List.getElem?_eq_none (not_lt.1 hc)]; rfl)
+    rw [if_pos (lt_of_lt_of_le hlt h1)]
+    exact pow_ne_zero 2 h
+
+/-- in a non-negative, descending list the non-zero entries come first -/
+theorem getD_eq_zero_of_sorted (s : List K) (hs : s.Pairwise (fun a b => b ≤ a)) (hn : ∀ x ∈ s, 0 ≤ x) :
+    ∀ i, (s.filter (· ≠ 0)).length ≤ i → s.getD i 0 = 0 := by
+  induction s with
+  | nil => intro i _; simp
+  | cons x t ih =>
+    rw [List.pairwise_cons] at hs
+    intro i hi
+    by_cases hx : x = 0
+    · have hall : ∀ y ∈ x :: t, y = 0 := by
+        intro y hy
+        rcases List.mem_cons.1 hy with rfl | hy
+        · exact hx
+        · exact le_antisymm (hx ▸ hs.1 y hy) (hn y (List.mem_cons_of_mem _ hy))
+      rw [List.getD_eq_getElem?_getD]
+      cases h : (x :: t)[i]? with
+      | none => rfl
+      | some y => exact hall y (List.mem_of_getElem? h)
+    · have hf : ((x :: t).filter (· ≠ 0)).length = (t.filter (· ≠ 0)).length + 1 := by simp [hx]
+      rw [hf] at hi
+      obtain ⟨j, rfl⟩ : ∃ j, i = j + 1 := ⟨i - 1, by omega⟩
+      have := ih hs.2 (fun y hy => hn y (List.mem_cons_of_mem _ hy)) j (by omega)
+      simpa using this
+
+/-- `svd_kernel` under the full SVD contract (`A = u Σ vh` with `u`, `vh` orthogonal, `s`
+non-negative and descending, `len(s) = min(m,n)`; exact arithmetic: a singular value is below
+the tolerance iff it is 0): `kernel_dim = n − rank A`, and the returned vectors are annihilated,
+orthonormal and `n − rank A` many -/
+theorem svdKernel_full {m : ℕ} (tol : K) (s : List K) (A : Matrix (Fin m) (Fin n) K) (U : Matrix (Fin m) (Fin m) K)
+    (Vh : Matrix (Fin n) (Fin n) K)
+    (hA : A = U * sigmaMat m s * Vh) (hU : U * Uᵀ = 1) (hV : Vh * Vhᵀ = 1)
+    (hlen : s.length = min m n) (hs : s.Pairwise (fun a b => b ≤ a)) (hn : ∀ x ∈ s, 0 ≤ x)
+    (hex : ∀ x ∈ s, x < tol ↔ x = 0) :
+    svdKernelDim tol m n s = n - A.rank ∧
+    (∀ v ∈ svdKernelRows tol m s Vh, A *ᵥ v = 0) ∧
+    (∀ v ∈ svdKernelRows tol m s Vh, dot v v = 1) ∧
+    (svdKernelRows tol m s Vh).Pairwise (fun v w => dot v w = 0) ∧
+    (svdKernelRows tol m s Vh).length = n - A.rank := by
+  have h1 : s.length ≤ m := by rw [hlen]; exact min_le_left _ _
+  have h2 : s.length ≤ n := by rw [hlen]; exact min_le_right _ _
+  have hrank : A.rank = (s.filter (· ≠ 0)).length := by
+    rw [hA, Matrix.rank_mul_eq_left_of_isUnit_det Vh _ (Matrix.isUnit_det_of_right_inverse hV),
+      Matrix.rank_mul_eq_right_of_isUnit_det U _ (Matrix.isUnit_det_of_right_inverse hU), rank_sigmaMat m s h1 h2]
+  have hz : (s.filter (· < tol)).length = (s.filter (fun x => !decide (x ≠ 0))).length := by
+    congr 1
+    apply List.filter_congr
+    intro x hx
+    by_cases h0 : x = 0
+    · have : x < tol := (hex x hx).2 h0
+      rw [h0] at this
+      simp [h0, this]
+    · have : ¬ x < tol := fun h => h0 ((hex x hx).1 h)
+      simp [h0, this]
+  have hsplit := List.length_eq_length_filter_add (l := s) (fun x => decide (x ≠ 0))
+  have hkd : svdKernelDim tol m n s = n - A.rank := by
+    unfold svdKernelDim
+    rw [hz, hrank]
+    have hmin : min m n ≤ n := min_le_right _ _
+    rcases Nat.le_total m n with hmn | hmn
+    · rw [Nat.min_eq_left hmn] at hlen; omega
+    · rw [Nat.min_eq_right hmn] at hlen; omega
+  have hzero : ∀ (i : Fin n), n - svdKernelDim tol m n s ≤ i.val → ∀ a, sigmaMat m s a i = 0 := by
+    intro i hi a
+    unfold sigmaMat
+    split_ifs with hai
+    · apply getD_eq_zero_of_sorted s hs hn
+      rw [hkd, hrank] at hi
+      have : (s.filter (· ≠ 0)).length ≤ n := le_trans (List.length_filter_le _ _) h2
+      omega
+    · rfl
+  obtain ⟨c1, c2, c3, c4⟩ := svdKernelRows_spec tol s A U (sigmaMat m s) Vh hA hV hzero
+  refine ⟨hkd, c1, c2, c3, ?_⟩
+  rw [c4, hkd]; exact min_eq_left (Nat.sub_le _ _)
+
+end rank
 
 /-! ### spheres -/
 
